@@ -23,8 +23,36 @@ def h32(x):
     return "%08x" % struct.unpack("<I", struct.pack("<f", x))[0]
 
 
+_CONSTS = {}
+
+
+def gen_consts():
+    if "v" not in _CONSTS:
+        _CONSTS["v"] = _read_consts()
+    return _CONSTS["v"]
+
+
+def _read_consts():
+    """the constants the translator extracted from the current headers (lean/DSGen/TDigest.lean)"""
+    import re
+    d = dict(tdigest_CAPACITY_K_MULT=2, tdigest_FUDGE_THRESHOLD=30, tdigest_FUDGE_SMALL_K=30, tdigest_FUDGE_LARGE_K=10,
+             tdigest_BUFFER_MULTIPLIER=4, tdigest_MIN_K=10)
+    try:
+        txt = open(os.path.join(core.LEAN, "DSGen", "TDigest.lean")).read()
+        for m in re.finditer(r"def (tdigest_\w+) : Nat := (\d+)", txt):
+            d[m.group(1)] = int(m.group(2))
+    except OSError:
+        pass
+    return d
+
+
 def capacity(k):
-    return 2 * k + (30 if k < 30 else 10)
+    c = gen_consts()
+    return c["tdigest_CAPACITY_K_MULT"] * k + (c["tdigest_FUDGE_SMALL_K"] if k < c["tdigest_FUDGE_THRESHOLD"] else c["tdigest_FUDGE_LARGE_K"])
+
+
+def buffer_capacity(k):
+    return capacity(k) * gen_consts()["tdigest_BUFFER_MULTIPLIER"]
 
 
 class Ty:
@@ -141,12 +169,12 @@ class TdPart(Part):
             h.append("dump %d" % sid)
 
     def sizes(self, rng, k, tier):
-        cap = capacity(k) * 4
+        cap = buffer_capacity(k)
         big = [cap - 1, cap, cap + 1, 2 * cap + 7, 3 * cap] if tier == "quick" else [cap - 1, cap, cap + 1, 2 * cap + 7, 5 * cap, 12 * cap]
         return rng.choice([0, 1, 2, 3, 5, 9, 17, 40, 100] + big + big)
 
     def one_history(self, rng, tier):
-        h = []
+        h = ["consts"]
         ty = Ty(rng.choice(["d", "d", "f"]))
         nd = rng.choice([1, 1, 2, 3, 4, 5])
         ks = [rng.choice(KS + ([rng.randrange(10, 70)] if rng.random() < 0.2 else [])) for _ in range(nd)]
@@ -214,15 +242,17 @@ class TdPart(Part):
             res = res.split()
             stw = st.split()
             op = w[0]
+            if op == "consts":
+                continue
             if op == "new":
                 if o.strip() == "throw":
-                    if int(w[3]) >= 10:
+                    if int(w[3]) >= gen_consts()["tdigest_MIN_K"]:
                         bad.append(("constructor-rejects-valid-k", o[:80], i))
                     continue
                 sid = int(w[1])
                 ty[sid] = Ty(w[2]); kk[sid] = int(w[3]); vals[sid] = []; epoch[sid] = (None, None)
-                if int(w[3]) < 10:
-                    bad.append(("constructor-accepts-k-below-10", o[:80], i))
+                if int(w[3]) < gen_consts()["tdigest_MIN_K"]:
+                    bad.append(("constructor-accepts-k-below-minimum", o[:80], i))
             else:
                 sid = int(w[1])
                 if sid not in ty:
@@ -397,7 +427,7 @@ class TdPart(Part):
         last = {}
         for l, o in zip(hist, impl_out):
             st = o.partition(" | ")[2].split()
-            if len(st) >= 8:
+            if len(st) >= 8 and len(l.split()) > 1:
                 if int(st[3]) + int(st[4]) < int(st[1]):
                     clustered = True
                 last[l.split()[1]] = (st[1], st[3], st[7])
@@ -495,11 +525,13 @@ CLAIM = dict(
     text=("Kernel-checked theorems over ALL update/compress/merge histories (every stream, merge tree, compress point, k, tunable) of an "
           "executable Lean model of tdigest<T>: total weight = number of accepted values (for every numeric instance, NaN included), and in "
           "exact arithmetic min/max exact, centroids sorted with means in [min,max], first/last centroid = (min,1)/(max,1) after every "
-          "compress, rank = 0 below min / 1 above max / in [0,1] / non-decreasing, quantile in [min,max] with q(0)=min and q(1)=max, "
+          "compress, rank = 0 below min / 1 above max / in [0,1] / non-decreasing, quantile in [min,max] with q(0)=min and q(1)=max "
+          "(and non-decreasing in the rank for the reference argument order of the interpolation call = the proposed fix), "
           "CDF = ranks ++ [1] and PMF sums to 1; the model is executed with Float/Float32 and compared bit for bit with the real headers on "
           "generated histories; the property itself is checked on every implementation trace."),
     note=("Quantile monotonicity is FALSE of the current code (interpolation weights swapped in get_quantile): td_quantile_mono_full_false with "
-          "witness, open known finding, proposed fix. Not decided: centroid-count bound in k (monitored against the reserved capacity on "
+          "witness, open known finding quantile-not-monotone, proposed one-line fix, and td_quantile_mono_fixed proves the fixed code monotone "
+          "(the translator reads the argument order from the header, the model follows the source). Not decided: centroid-count bound in k (monitored against the reserved capacity on "
           "traces) and the accuracy profile. Rounding/overflow not modelled."),
     technique="Lean 4 invariant proof over history trees, generic numeric class (Rat for proofs, Float/Float32 for bit-exact execution) + differential correspondence + trace oracle",
     design="DESIGN.md §3 C17")
